@@ -223,6 +223,11 @@ ACCEPT_I = {BUFFER: {"frees"}, RECURSE: {"recurses"}, "handle": {"drops-handle"}
 ACCEPT_D = {BUFFER: {"frees"}, RECURSE: {"recurses"}, "handle": {"drops-handle"}, NEVER: {"discards", UNREACH}, UNREACH: {UNREACH}}
 
 
+def noidx(path):
+    """function path without crate prefix and without closure ordinals (stable instance names)"""
+    return re.sub(r"\{closure#\d+\}", "{closure}", path).replace("crate::abi::", "").replace("crate::", "")
+
+
 def instr_variants():
     c = mir.load("ws", "wit_bindgen_core", "rlib")
     return [v["name"] for v in c.adt("abi::Instruction")["variants"]]
@@ -283,6 +288,11 @@ def core_rules(rep):
                    f"scrutinees `{s_out}` / `{s_in}`", t.fn.loc(t.outer))
         cN, cD, cI = classify_N(rN), classify_D(V), classify_I(V)
         for key in domain:
+            rep.guard("R3.1", f"matrix row {key}", lambda key=key: row(key))
+
+    def row(key):
+        cN, cD, cI = classify_N(rN), classify_D(V), classify_I(V)
+        if True:
             n = tN.per_mode(key, cN)
             ncls = {n[m][0] for m in MODES}
             narm = n["Lists"][1]
@@ -290,7 +300,7 @@ def core_rules(rep):
             if exp is None:
                 rep.ob("R3.1", f"N({key}) has a class assigned by the property", False,
                        "kind unknown to rules/C03.py: decide whether it owns heap data and extend EXPECT_N", wp_path)
-                continue
+                return
             n1 = next(iter(ncls)) if len(ncls) == 1 else "mixed " + "/".join(sorted(ncls))
             rep.ob("R3.1", f"N({key}) is {' or '.join(sorted(exp))}", n1 in exp,
                    f"needs_deallocate classifies {key} as `{n1}`; the property only counts string/list/map buffers (and, in "
@@ -350,7 +360,7 @@ def core_rules(rep):
         for f, vs in made.items():
             base = re.sub(r"::\{closure#\d+\}.*$", "", f.npath)
             ent = [k for k in ENTRY if mir.suffix_match(base, k)]
-            rep.ob("R3.2", f"a Deallocate mode constant is created only at an entry point ({f.npath.replace('crate::', '')})",
+            rep.ob("R3.2", f"a Deallocate mode constant is created only at an entry point ({noidx(f.npath)})",
                    len(ent) == 1, f"constructs Deallocate::{'/'.join(vs)} outside the five entry points "
                    "(a walker that makes up its own mode no longer honours its caller's)", f.loc())
             if len(ent) != 1:
@@ -397,7 +407,7 @@ def core_rules(rep):
                     else:   # a closure: the mode is a captured variable of the walker (its only Deallocate value, see (a))
                         ok = o.get("kind") == "arg" and o.get("n") == 1
                     nthread += 1
-                    rep.ob("R3.2", f"{g.npath.replace('crate::abi::', '')} hands its own mode to {cl.callee.split('::')[-1]}",
+                    rep.ob("R3.2", f"{noidx(g.npath)} hands its own mode to {cl.callee.split('::')[-1]}",
                            ok, f"mode argument originates from {({k: v for k, v in o.items() if k in ('kind', 'n', 'place')})}",
                            g.loc(cl.bb))
         rep.floor("R3.2", "calls between walkers carrying the mode", nthread, 30)
@@ -418,7 +428,7 @@ def core_rules(rep):
                 if r.get("kind") == "arg" and r.get("n") == own:
                     sw.append((sb, tt))
             ok = own is not None and bool(sw) and b not in f.reachable(0, avoid_edges=sw)
-            nm = f.npath.replace("crate::abi::", "")
+            nm = noidx(f.npath)
             rep.ob("R3.2", f"{nm}: DropHandle is emitted only on a true edge of what.handles()", ok,
                    f"{len(sw)} handles() test(s) on the function's own mode; the site is reachable without passing one"
                    if not ok else "", f.loc(b))
@@ -541,19 +551,19 @@ def core_rules(rep):
 # ================================================================================================ backends
 BACKENDS = {
     "rust": dict(crate="wit_bindgen_rust", gen=["crates/rust/src/interface.rs"], emit="crates/rust/src/bindgen.rs",
-                 free=r"\{dealloc\}\(", post_return=1, names=1, pairs=0, frees=0),
+                 free=r"\{dealloc\}\(", post_return=1, names=1, pairs=12, frees=3),
     "c": dict(crate="wit_bindgen_c", gen=["crates/c/src/lib.rs"], emit="crates/c/src/lib.rs", free=r"\bfree\(",
-              post_return=1, names=1, pairs=0, frees=0),
+              post_return=1, names=1, pairs=0, frees=3),
     "cpp": dict(crate="wit_bindgen_cpp", gen=["crates/cpp/src/lib.rs"], emit="crates/cpp/src/lib.rs",
-                free=r"\b(?:free|drop_raw)\(", post_return=1, names=3, pairs=0, frees=0),
+                free=r"\b(?:free|drop_raw)\(", post_return=1, names=3, pairs=6, frees=3),
     "csharp": dict(crate="wit_bindgen_csharp", gen=["crates/csharp/src/interface.rs"], emit="crates/csharp/src/function.rs",
-                   free=r"NativeMemory\.Free\(", post_return=1, names=1, pairs=0, frees=0),
+                   free=r"NativeMemory\.Free\(", post_return=1, names=1, pairs=6, frees=3),
     "moonbit": dict(crate="wit_bindgen_moonbit", gen=["crates/moonbit/src/lib.rs"], emit="crates/moonbit/src/lib.rs",
-                    free=r"\bmbt_ffi_free\(", post_return=1, names=1, pairs=0, frees=0),
+                    free=r"\bmbt_ffi_free\(", post_return=1, names=1, pairs=6, frees=3),
     "d": dict(crate="wit_bindgen_d", gen=["crates/d/src/lib.rs"], emit="crates/d/src/lib.rs", free=r"\bfree\(",
-              post_return=1, names=3, pairs=0, frees=0),
+              post_return=1, names=3, pairs=3, frees=2),
     "go": dict(crate="wit_bindgen_go", gen=["crates/go/src/lib.rs"], emit="crates/go/src/lib.rs", free=None,
-               post_return=0, names=1, pairs=0, frees=0),
+               post_return=0, names=1, pairs=2, frees=0),
 }
 QUICK_BACKENDS = ["rust", "c"]
 PRED = "abi::guest_export_needs_post_return"
@@ -772,20 +782,24 @@ def backend_r34(rep, be, cfg):
             if arms.get(n) is None:
                 continue
             for k in ("size", "align"):
-                for s in qs[n][k]:
+                if qs[n][k]:
                     rep.ob("R3.4", f"{be}: {n}: the {k} is that of the instruction's own {'/'.join(o[1:] for o in own)}",
-                           all(o in s for o in own), f"`{s}`", f.loc(arms[n].node))
+                           all(o in s for s in qs[n][k] for o in own), f"{sorted(qs[n][k])}", f.loc(arms[n].node))
             # a count is only ever multiplied by a size
+            scaled, seen_align = [], 0
             for fm in arm_templates(arms[n]):
                 for kind, key, e, off in fm.hole_exprs():
                     t = hole_text(fm, kind, key, e, rens[n])
                     if t is None or qkind(t) != "align":
                         continue
+                    seen_align += 1
                     before = fm.template[:off]
                     after = fm.template[fm.template.index("}", off) + 1:]
-                    rep.ob("R3.4", f"{be}: {n}: an alignment is never scaled by the element count",
-                           not re.search(r"\*\s*\(?$", before) and not re.search(r"^\)?\s*\*", after),
-                           f"template `{fm.template.strip()[:70]}`", f.loc(fm.node))
+                    if re.search(r"\*\s*\(?$", before) or re.search(r"^\)?\s*\*", after):
+                        scaled.append(re.sub(r"\s+", " ", fm.template.strip())[:70])
+            if seen_align:
+                rep.ob("R3.4", f"{be}: {n}: an alignment is never scaled by the element count", not scaled,
+                       f"{seen_align} alignment hole(s); scaled in {scaled}", f.loc(arms[n].node))
     rep.floor("R3.4", f"{be}: allocation/free expression pairs compared", ncmp, cfg["pairs"])
     if be == "rust":
         # cabi_dealloc(ptr, len * size, align) / Layout::from_size_align(len * size, align)
